@@ -3742,7 +3742,11 @@ fn parse_layers(
         }
         for (osc, layer_action) in layers_cfg[layer_level][0].iter_mut().enumerate() {
             if *layer_action == DEFAULT_ACTION {
-                *layer_action = match s.block_unmapped_keys && !is_a_button(osc as u16) {
+                // A defsrc key that a deflayermap does not list is transparent, not unmapped.
+                *layer_action = match s.block_unmapped_keys
+                    && !is_a_button(osc as u16)
+                    && !s.mapping_order.contains(&osc)
+                {
                     true => Action::NoOp,
                     false => Action::Trans,
                 };
